@@ -99,6 +99,12 @@ func cmdCheck(args []string) int {
 		extraObls = eng.checkC14()
 		ev.Level = "other"
 	}
+	var boundedInfo map[string]interface{}
+	if id == "C12" {
+		var bo []*Obligation
+		bo, boundedInfo = eng.boundedRepair(*repo, *verif, *tier, seed)
+		extraObls = append(extraObls, bo...)
+	}
 	if len(work) == 0 && len(extraObls) == 0 {
 		return toolFailure("no contract carries property " + id)
 	}
@@ -221,7 +227,7 @@ func cmdCheck(args []string) int {
 			continue
 		}
 		// failed or undecided: known finding?
-		if kf := matchKF(kfs, id, o); kf != nil && o.ctx == nil && o.Kind == "typestate" && kf.Guard == "true" {
+		if kf := matchKF(kfs, id, o); kf != nil && o.ctx == nil && kf.Guard == "true" {
 			// structural obligation (no solver context): the finding covers the whole obligation
 			nKF++
 			kfLines = append(kfLines, fmt.Sprintf("KNOWN-FINDING: property=%s obligation=%s %s", id, o.Name, kf.What))
@@ -284,6 +290,20 @@ func cmdCheck(args []string) int {
 	ev.Coverage["known_finding_lines"] = kfLines
 	if id == "C14" {
 		ev.Coverage["explanation"] = "reads-frame obligations decided by a def-use walk over the typed AST of every command function that calls TryCache (no SMT): each flag/positional-derived value read after the TryCache call must occur in the encodePayload tuple list, be computed only from such values, or be the input/output path or the no-cache switch. One obligation per (command, value). Typestate half: ioDelegate.Close/Commit are verified by contract (SMT) — an uncommitted entry is removed — and per command a structural obligation shows no error return is reachable after Commit."
+	}
+	if id == "C12" {
+		for k, v := range boundedInfo {
+			ev.Coverage[k] = v
+		}
+		nb := 0
+		for _, o := range all {
+			if o.Kind == "bounded" {
+				nb++
+			}
+		}
+		ev.Coverage["bounded_obligations"] = nb
+		ev.Level = "other"
+		ev.Coverage["explanation"] = "two parts: (1) proof: the merge table of LocationList.Push (the only place Repair merges anything) is under contract and discharged by SMT for all inputs; (2) BOUNDED, not proved: Repair itself (map iteration, fmt keys, unbounded linked list) is outside the verified subset, so the real function is run on every feature table within the bound stated in /verif/bounded/repair_bounded_test.go and the clauses of the property are checked on each result; obligations named gts.Repair/bounded:* are outcomes of that enumeration."
 	}
 	ev.Assumptions = tb
 	ev.Violations = nViol
